@@ -79,5 +79,24 @@ def def_tasks(pid, tier, repo, seed, R, functions=None):
     return tasks
 
 
+def value_tasks(pid, tier, repo, seed, R):
+    fns = ["require_string_key", "json_format_validator", "no_dot_in_key", "json_attr_dict_validator"]
+    tasks = [dict(kind="validators", repo=repo, seed=seed, what="validators", functions=[f], props=[pid], threads=True,
+                  label=f"{pid}:validator:{f}") for f in fns]
+    tasks.append(dict(kind="validators", repo=repo, seed=seed, what="classes", classes=concrete_classes(R), props=[pid],
+                      threads=True, label=f"{pid}:classes"))
+    if pid == "C12":
+        tasks.append(dict(kind="validators", repo=repo, seed=seed, what="lemma", props=[pid], threads=True,
+                          label=f"{pid}:lemma"))
+    return tasks
+
+
+def c11_tasks(pid, tier, repo, seed, R):
+    return value_tasks(pid, tier, repo, seed, R) + def_tasks(pid, tier, repo, seed, R, ["_validate"])
+
+
+API_PROPS["C11"] = dict(methods="mutator", title="forbidden data never gets in")
 EXTRA = {p: def_tasks for p in DEFS_FOR}
+EXTRA["C11"] = c11_tasks
+EXTRA["C12"] = value_tasks
 LEVEL = {}
